@@ -137,12 +137,13 @@ static void run_gemv(const vcase *c, vres *r, int gemm)
 #define XP(i) ((incx) > 0 ? (i) * (incx) : ((lenx) - 1 - (i)) * -(incx))
 #define YP(i) ((incy) > 0 ? (i) * (incy) : ((leny) - 1 - (i)) * -(incy))
     if (inc != 1) WK_COUNT(K_MVSTR);
+    int zpos = (int)((c->pat + (uint64_t)c->type + (uint64_t)c->k) % (uint64_t)(lenx + 1));     /* == lenx: no zero component */
     char *xb = malloc(T->esz * (size_t)ldx * ncols + 16), *yb = malloc(T->esz * (size_t)ldy * ncols + 16), *x0 = malloc(T->esz * (size_t)ldx * ncols + 16);
     dmat X, Y; memset(&X, 0, sizeof X); memset(&Y, 0, sizeof Y);
     int beta0 = (beta == 0);
     for (int cc = 0; cc < ncols; cc++) {
         for (int i = 0; i < ldx; i++) T->st(xb, i + (long)cc * ldx, 5555.5);
-        for (int i = 0; i < lenx; i++) { xc v = (xr)((i * 2 + cc + 1) % 5 - 2) * 0.75L + (T->cplx ? (xr)(i % 2) * 0.5L * I : 0); T->st(xb, XP(i) + (long)cc * ldx, (double _Complex)v); DM(&X, i, cc) = T->ld(xb, XP(i) + (long)cc * ldx); }
+        for (int i = 0; i < lenx; i++) { xc v = (xr)((i * 2 + cc + 1) % 5 - 2) * 0.75L + (T->cplx ? (xr)(i % 2) * 0.5L * I : 0); if (i == zpos) v = 0;   /* an exact zero component of x, at every position over the cases (the kernels skip zero components) */ T->st(xb, XP(i) + (long)cc * ldx, (double _Complex)v); DM(&X, i, cc) = T->ld(xb, XP(i) + (long)cc * ldx); }
         for (int i = 0; i < ldy; i++) T->st(yb, i + (long)cc * ldy, 6666.5);
         for (int i = 0; i < leny; i++) {
             xc v = (xr)((i * 3 + cc) % 4 + 1) * ((i & 1) ? -1.5L : 0.5L);
